@@ -19,9 +19,15 @@ ASSUMPTIONS = [
     "`+ timedelta` (fold reset to 0); checked on every run (oracle clause `fold`, operands with fold=1 are generated)",
     "\"dt2 + relativedelta(dt1, dt2) equals dt1 exactly\" is read as the same calendar instant when exactly one operand is a "
     "date (Python's date == datetime is False by type): the date is promoted to midnight before comparing",
-    "aware operands share the same tzinfo object (the property's 'common zone'); two different tzinfo objects are outside the model",
+    "aware operands of a common zone come in two flavours, both generated and both modelled: ONE shared tzinfo object "
+    "(CPython compares/subtracts wall clocks - the theorems diff_inverse etc.) and two equal-but-distinct objects "
+    "(two tzlocal(), two tzfile loads, gettz.nocache twice, tzoffset.instance twice, two tzstr, a tzstr and the equal "
+    "tzrange: CPython works in UTC - model `cmpKey`, theorem diff_inverse_distinct_objects_partial, known finding "
+    "D-C09-distinct-tzinfo-objects where the offset changes over the span); aware operands of two DIFFERENT zones are "
+    "outside the property",
 ]
-RULE = ("seeded random ordered pairs of date / naive / aware(common zone) operands in years 1..9999, biased to month ends, "
+RULE = ("seeded random ordered pairs of date / naive / aware (one shared tzinfo object, and two equal-but-distinct tzinfo "
+        "objects of 7 kinds across and away from DST changes) operands in years 1..9999, biased to month ends, "
         "Feb 28/29, leap/century years, years 1 and 9999, microseconds 0/1/999999, equal and adjacent instants, both "
         "orders, mixed date/datetime; plus an exhaustive day-of-month grid (every pair of days in a 14-month window around "
         "Feb of a leap and a non-leap year); distinct = distinct canonical pair; non-trivial = the pair is comparable "
@@ -75,9 +81,91 @@ def g_pair(rng):
     return a, b
 
 
+# ---------------------------------------------------------------- equal-but-distinct tzinfo objects
+DST_DAYS = [(2020, 3, 8), (2020, 11, 1), (2021, 3, 14), (2021, 3, 28), (2020, 10, 25), (1999, 4, 4), (2024, 3, 10)]
+
+
+def g_pair_distinct(rng):
+    """two aware datetimes of one zone held by two distinct tzinfo objects, across and away from DST changes"""
+    zone = L.DISTINCT_ZONE_BASE + rng.randrange(len(L.distinct_factories()))
+    z1, z2 = L.distinct_tz(zone, 1), L.distinct_tz(zone, 2)
+    r = rng.random()
+    if r < 0.55:
+        y, m, d = rng.choice(DST_DAYS)
+        base = datetime.datetime(y, m, d, 12)
+        a = base + datetime.timedelta(days=rng.choice([-1, 0, 0, 1, 2, 30, -30]), hours=rng.randint(-14, 14),
+                                      minutes=rng.choice([0, 0, 30, 59]))
+        b = base + datetime.timedelta(days=rng.choice([-1, 0, 1, -2, -31, 31, 180, -365]), hours=rng.randint(-14, 14),
+                                      microseconds=rng.choice([0, 0, 1, 999999]))
+    else:
+        a = L.g_temporal(rng, ("n",)); b = L.g_temporal(rng, ("n",))
+        if rng.random() < 0.5:
+            try:
+                b = b.replace(year=a.year + rng.choice([0, 0, 1, -1]))
+            except ValueError:
+                pass
+    a = a.replace(tzinfo=z1, fold=0); b = b.replace(tzinfo=z2, fold=0)
+    if rng.random() < 0.5:
+        a, b = b.replace(tzinfo=z1), a.replace(tzinfo=z2)
+    return a, b
+
+
+def us(td):
+    return (td.days * 86400 + td.seconds) * 10 ** 6 + td.microseconds
+
+
+def offsets_for(a, b):
+    """utcoffsets (in us) the constructor can ask for: at a, and at the whole-month shifts of b's wall time
+    around the month estimate; returns (off_a, [(k, off_k)...]) or None if an offset is unavailable"""
+    try:
+        off_a = us(a.utcoffset())
+        b.utcoffset()          # tzlocal raises OverflowError near years 1 / 9999 (time.localtime): not relativedelta's business
+        k0 = (a.year - b.year) * 12 + (a.month - b.month)
+        ks = []
+        for k in range(k0 - 2, k0 + 3):
+            s = shift(b, k)
+            if s is not None:
+                ks.append((k, us(s.replace(fold=0).utcoffset())))
+        return off_a, ks
+    except Exception:
+        return None
+
+
+def diffo_request(a, b, offs):
+    off_a, ks = offs
+    return "rd.diffo %s %s %d %s" % (L.t_wire(a), L.t_wire(b), off_a, " ".join("%d %d" % kv for kv in ks))
+
+
+def distinct_pairs(ctx, rng, n):
+    """[(a, b, offsets, model response)] — the model is asked once, in a batch"""
+    out, reqs = [], []
+    for _ in range(n):
+        a, b = g_pair_distinct(rng)
+        offs = offsets_for(a, b)
+        if offs is None:
+            ctx.count("distinct_skipped_no_offset")
+            continue
+        out.append([a, b, offs, None])
+        reqs.append(diffo_request(a, b, offs))
+    for rec, resp in zip(out, ctx.driver(reqs)):
+        rec[3] = resp
+    return out
+
+
 def correspondence(ctx):
     basecorr.run(ctx)
     rng = ctx.subrng("corr")
+    # the UTC branch of the model (distinct tzinfo objects) against the implementation
+    with L.process_tz("America/New_York"):
+        nd = ctx.budget(6000, 60000)
+        for a, b, offs, model in distinct_pairs(ctx, ctx.subrng("corr-distinct"), nd):
+            r = impl_diff(a, b)
+            ctx.count("corr_distinct_" + (r.split()[1] if r.startswith("err") else "ok"))
+            if len(set([offs[0]] + [o for _, o in offs[1]])) > 1:
+                ctx.count("corr_distinct_offset_changes_in_span")
+            if r != model:
+                ctx.mismatch("rd.diffo", diffo_request(a, b, offs), r, model)
+            ctx.traces += 1
     n = ctx.budget(50000, 400000)
     reqs, exp = [], []
     slow = 0
@@ -137,9 +225,28 @@ def as_cmp(x, like):
     return x
 
 
-def check_pair(ctx, a, b):
+def unknown_failures(ctx):
+    return sum(1 for v in ctx.violations if not _distinct_known(v))
+
+
+KNOWN_KEEP = 25      # instances of the known class kept in the violation buffer (the rest are only counted)
+
+
+def report(ctx, what, case):
+    """ctx.violation, except that the known class does not flood the (capped) violation buffer"""
+    v = {"what": what, "case": case}
+    if _distinct_known(v):
+        ctx.count("known_class_D-C09-distinct-tzinfo-objects")
+        if ctx.hist["known_class_D-C09-distinct-tzinfo-objects"] > KNOWN_KEEP:
+            return
+    ctx.violation(what, case)
+
+
+def check_pair(ctx, a, b, extra=None):
     from dateutil.relativedelta import relativedelta
     case = {"a": L.t_wire(a), "b": L.t_wire(b)}
+    if extra:
+        case.update(extra)
     t0 = time.time()
     try:
         d = L.watched(lambda: relativedelta(a, b), WATCHDOG_S)
@@ -170,7 +277,7 @@ def check_pair(ctx, a, b):
         ctx.violation("b + relativedelta(a, b) raised %s" % type(ex).__name__, case)
         return
     if not same_instant(back, a):
-        ctx.violation("b + relativedelta(a, b) = %s, not a = %s (delta %r)" % (back, a, d), case)
+        report(ctx, "b + relativedelta(a, b) = %s, not a = %s (delta %r)" % (back, a, d), case)
     # only relative fields
     if any(getattr(d, k) is not None for k in L.ABS) or d.weekday is not None or d.leapdays:
         ctx.violation("result carries an absolute field / weekday / leapdays: %r" % (d,), case)
@@ -192,7 +299,9 @@ def check_pair(ctx, a, b):
     if M:
         ctx.count("oracle_month_part_nonzero")
     # PEP 495 fold: ignored by <, - for one shared tzinfo object (and for naive operands), reset by + timedelta
-    if isinstance(a, datetime.datetime):
+    # (for two distinct tzinfo objects utcoffset() is consulted, so fold does matter there; those pairs are generated
+    #  with fold=0 and compared with the model's `off`, which has no fold argument)
+    if isinstance(a, datetime.datetime) and not (extra and extra.get("distinct_objects")):
         af = a.replace(fold=1 - a.fold)
         try:
             df = relativedelta(af, b)
@@ -227,9 +336,18 @@ def oracle(ctx):
         if L.kind_of(a)[0] == "a" and L.kind_of(b)[0] == "a" and a.tzinfo is not b.tzinfo:
             continue
         check_pair(ctx, a, b)
-        if len(ctx.violations) >= STOP_AFTER or ctx.hist.get("oracle_hang", 0) >= 5:
+        if unknown_failures(ctx) >= STOP_AFTER or ctx.hist.get("oracle_hang", 0) >= 5:
             ctx.note("oracle sweep stopped early: %d failing inputs in hand" % len(ctx.violations))
             return
+    # aware operands of one zone held by two distinct tzinfo objects (CPython: UTC comparison / subtraction)
+    with L.process_tz("America/New_York"):
+        for a, b, offs, model in distinct_pairs(ctx, ctx.subrng("oracle-distinct"), ctx.budget(8000, 100000)):
+            offsets = sorted(set([offs[0]] + [o for _, o in offs[1]]))
+            ctx.count("oracle_distinct_pairs")
+            if len(offsets) > 1:
+                ctx.count("oracle_distinct_offset_changes_in_span")
+            check_pair(ctx, a, b, {"distinct_objects": True, "offsets_us": offsets, "model": model,
+                                   "impl": impl_diff(a, b), "offs": [offs[0], offs[1]]})
     # relativedelta(x, x)
     for _ in range(ctx.budget(500, 20000)):
         x = L.g_temporal(rng)
@@ -246,19 +364,39 @@ def oracle(ctx):
             for b in days:
                 check_pair(ctx, a, b)
                 ctx.count("grid_pairs")
-            if len(ctx.violations) >= STOP_AFTER:
+            if unknown_failures(ctx) >= STOP_AFTER:
                 return
     for a, b in pairs[:4]:
         ctx.sample({"a": str(a), "b": str(b), "impl": impl_diff(a, b)})
 
 
-KNOWN = {}
+def _distinct_known(v):
+    """D-C09-distinct-tzinfo-objects — tight: the operands are aware with two distinct tzinfo objects, the zone's
+    utcoffset is not constant over the span the constructor looks at, the failing clause is the inverse law, AND the
+    implementation returned exactly what the model of the code (UTC comparison/subtraction) returns on that input."""
+    c = v["case"]
+    return (bool(c.get("distinct_objects")) and len(c.get("offsets_us", [])) > 1
+            and v["what"].startswith("b + relativedelta(a, b) = ")
+            and isinstance(c.get("model"), str) and c.get("model", "").startswith("ok ") and c.get("impl") == c.get("model"))
+
+
+KNOWN = {"D-C09-distinct-tzinfo-objects": _distinct_known}
 
 
 def replay(ctx, payload):
     c = payload["violation"]["case"]
-    a, b = L.parse_t(c["a"].split()), L.parse_t(c["b"].split())
     sub = L.vlib.Ctx(PROP, "quick", ctx.seed)
+    if c.get("distinct_objects"):
+        with L.process_tz("America/New_York"):
+            a, b = L.parse_t(c["a"].split()), L.parse_t(c["b"].split())
+            offs = offsets_for(a, b)
+            model = ctx.driver([diffo_request(a, b, offs)])[0]
+            print("a=%s b=%s impl=%s model=%s" % (a, b, impl_diff(a, b), model))
+            check_pair(sub, a, b, {"distinct_objects": True, "model": model, "impl": impl_diff(a, b)})
+        for v in sub.violations:
+            print("still failing:", v["what"])
+        return not sub.violations
+    a, b = L.parse_t(c["a"].split()), L.parse_t(c["b"].split())
     check_pair(sub, a, b)
     print("a=%s b=%s relativedelta(a,b)=%s model=%s" % (a, b, impl_diff(a, b),
                                                          ctx.driver(["rd.diff %s %s" % (L.t_wire(a), L.t_wire(b))])[0]))
